@@ -32,6 +32,8 @@ def PktWF (p : Packet) : Prop :=
   p.options.Sorted ∧
   (∀ kv ∈ p.options, kv.1 ≤ 65535 ∧ ∀ v ∈ kv.2, v.length ≤ 65804)
 
+instance (p : Packet) : Decidable (PktWF p) := by unfold PktWF; exact inferInstance
+
 /-- every option value fits the 16-bit extended length field -/
 def AllFit (p : Packet) : Prop := ∀ kv ∈ p.options, ∀ v ∈ kv.2, v.length ≤ 65804
 
